@@ -660,7 +660,8 @@ def beq(a, b):
 
 
 _CODES = {'B': (1, False), 'b': (1, True), 'H': (2, False), 'h': (2, True), 'I': (4, False), 'i': (4, True),
-          'L': (4, False), 'l': (4, True), 'Q': (8, False), 'q': (8, True), 'x': (1, None)}
+          'L': (4, False), 'l': (4, True), 'Q': (8, False), 'q': (8, True), 'x': (1, None),
+          'f': (4, 'f'), 'd': (8, 'f')}
 
 
 def _parse_fmt(fmt):
@@ -723,6 +724,18 @@ class SymStruct:
                 pos += size
                 continue
             part = lst[pos:pos + size]
+            if signed == 'f':
+                if all(isinstance(x, int) for x in part):
+                    out.append(_struct.unpack('<f' if size == 4 else '<d', bytes(part))[0])
+                else:
+                    from .sfmt import SFloat, D, F32, RNE
+                    bits = z3.Concat(*[z3.Extract(7, 0, bv(x)) for x in reversed(part)])
+                    if size == 4:
+                        out.append(SFloat(z3.fpToFP(RNE, z3.fpBVToFP(bits, F32), D)))
+                    else:
+                        out.append(SFloat(z3.fpBVToFP(bits, D)))
+                pos += size
+                continue
             if all(isinstance(x, int) for x in part):
                 out.append(int.from_bytes(bytes(part), 'little', signed=signed))
                 pos += size
@@ -744,7 +757,7 @@ class SymStruct:
         return self.unpack(buf[offset:offset + self.size])
 
     def pack(self, *vals):
-        if all(isinstance(x, (int, bytes, bytearray)) for x in vals):
+        if all(isinstance(x, (int, float, bytes, bytearray)) for x in vals):
             return self.real.pack(*vals)
         out = []
         fields = [f for f in self.fields]
@@ -760,6 +773,11 @@ class SymStruct:
                 out.append(0)
                 continue
             v = vals[vi]; vi += 1
+            if signed == 'f':
+                if isinstance(v, (int, float)):
+                    out.extend(_struct.pack('<f' if size == 4 else '<d', v))
+                    continue
+                raise Inconclusive("pack of symbolic float")
             if not isinstance(v, (int, SInt)):
                 raise _struct.error("required argument is not an integer")
             v = SInt.of(v)
